@@ -1,4 +1,5 @@
 import Solstat.Props.C17b
+import Solstat.Props.C02
 /-!
 # C17, last clause: no detector invents a location
 
@@ -86,5 +87,15 @@ leaves cannot differ in a finding that lies at a location of neither: whatever i
 theorem no_finding_outside_nodes (name : String) (d : T → List Loc) (h : detectorByName name = some d) (f : T) (l : Loc)
     (hout : l ∉ locsOf f) : l ∉ d f :=
   fun hl => hout (reported_in_tree_all name d h f l hl)
+
+/-- every reported LINE is the line on which some node of the parse tree begins: no line is reported for text that
+is not a construct of the tree (a comment, the inside of a string literal) -/
+theorem reported_line_is_node_line (name : String) (d : T → List Loc) (h : detectorByName name = some d)
+    (bs : List UInt8) (f : T) (y : Nat) (hy : y ∈ analyzeLines d bs f) :
+    ∃ l ∈ locsOf f, y = lineOf bs l.start := by
+  unfold analyzeLines at hy
+  rw [mem_lineSet, List.mem_map] at hy
+  obtain ⟨l, hl, rfl⟩ := hy
+  exact ⟨l, reported_in_tree_all name d h f l hl, rfl⟩
 
 end Solstat
